@@ -222,15 +222,28 @@ def check(tier="quick", seed=0):
     try:
         pool = ctx.Pool(min(16, os.cpu_count() or 4), initializer=_init, initargs=(repo, tmpdir, SOFT_LIMIT_S))
         try:
-            for label, out, dt in pool.imap_unordered(_run, tasks, chunksize=64):
-                n += 1
-                slowest = max(slowest, dt)
-                if out and out.startswith("does not terminate"):
-                    candidates.append(label)
-                    if len(candidates) >= 8:
-                        break          # stop the sweep: confirm serially below
-                elif out:
-                    record(label, out)
+            stop = False
+            for b0 in range(0, len(tasks), 800):
+                batch = tasks[b0:b0 + 800]
+                try:
+                    res = pool.map_async(_run, batch, chunksize=10).get(timeout=600)
+                except mp.TimeoutError:
+                    # a worker died (interpreter crash in a C extension such as the built-in marshal) or hung beyond every limit:
+                    # multiprocessing loses its chunk silently.  Reported, never waited for.
+                    vio.append({"name": "C11/bounded/worker-lost", "key": "worker-lost", "input_label": batch[0][0], "input": "",
+                                "detail": "a fuzz worker was lost (interpreter crash or hang) in the batch of inputs %d..%d" % (b0, b0 + len(batch))})
+                    break
+                for label, out, dt in res:
+                    n += 1
+                    slowest = max(slowest, dt)
+                    if out and out.startswith("does not terminate"):
+                        candidates.append(label)
+                        if len(candidates) >= 8:
+                            stop = True          # stop the sweep: confirm serially below
+                    elif out:
+                        record(label, out)
+                if stop:
+                    break
         finally:
             pool.terminate()
             pool.join()
@@ -250,6 +263,40 @@ def check(tier="quick", seed=0):
                 pool.join()
     finally:
         shutil.rmtree(tmpdir, ignore_errors=True)
+    # memory amplification: a 77-byte file that announces a tuple of 120 million items, on the loader path of the host's own
+    # version (built-in marshal) and on xdis's own unmarshaller; each in a child process of its own, peak RSS measured
+    import subprocess
+    probe = (
+        "import sys, io, struct, resource, os\n"
+        "import xdis.load as L\n"
+        "from xdis.magics import PYTHON_MAGIC_INT, int2magic\n"
+        "mi = PYTHON_MAGIC_INT if sys.argv[1] == 'host' else (3413 if PYTHON_MAGIC_INT != 3413 else 3425)\n"
+        "data = int2magic(mi) + b'\\0' * 12 + b'(' + struct.pack('<i', 120000000) + b'N' * 60\n"
+        "sys.stderr = open(os.devnull, 'w')\n"
+        "try:\n    L.load_module_from_file_object(io.BytesIO(data), 'x.pyc'); r = 'returned'\n"
+        "except ImportError:\n    r = 'ImportError'\n"
+        "except BaseException as e:\n    r = 'ESC ' + type(e).__name__\n"
+        "print(r, resource.getrusage(resource.RUSAGE_SELF).ru_maxrss // 1024)\n")
+    amp = {}
+    for which in ("host", "portable"):
+        env = dict(os.environ, PYTHONPATH=repo, PYTHONDONTWRITEBYTECODE="1")
+        try:
+            q = subprocess.run([sys.executable, "-c", probe, which], capture_output=True, text=True, env=env, timeout=120)
+        except subprocess.TimeoutExpired:
+            vio.append({"name": "C11/bounded/does not terminate", "key": "amplification-probe-%s-does-not-terminate" % which, "input_label": "tuple-of-120M:" + which, "input": "",
+                        "detail": "loading the 77-byte file that announces a tuple of 120 million items does not terminate within 120 s (%s loader path)" % which})
+            continue
+        n += 1
+        parts = q.stdout.split()
+        mb = int(parts[-1]) if parts and parts[-1].isdigit() else -1
+        amp[which] = (q.stdout.strip(), mb)
+        if q.returncode != 0 or not parts or parts[0] not in ("ImportError", "returned"):
+            vio.append({"name": "C11/bounded/amplification-probe", "key": "amplification-probe-%s-outcome" % which, "input_label": "tuple-of-120M:" + which, "input": "", "detail": "outcome %r rc %s" % (q.stdout.strip(), q.returncode)})
+        elif mb > 300:
+            key = "host-fast-path-memory-amplification" if which == "host" else "portable-path-memory-amplification"
+            vio.append({"name": "C11/bounded/memory-amplification", "key": key, "input_label": "tuple-of-120M:" + which,
+                        "input": "magic of the %s + 12 zero bytes + '(' + <i 120000000 + 60 x 'N' (77 bytes)" % ("host interpreter" if which == "host" else "another 3.x version"),
+                        "detail": "peak RSS %d MiB while loading a 77-byte file (%s loader path)" % (mb, which)})
     return {"name": "ground.fuzz_load", "kind": "bounded",
             "bound": "%d corpus files (%s) x {every prefix up to 96/400 bytes + sampled, byte flips, inserts/deletes, adversarial length/reference fields, deep nesting} + magic words %s; %d s / %d MiB per call; slowest call %.2f s" % (
                 len(files), "1 per version directory" if tier == "quick" else "4 per version directory", "every 4th of 65536 + every magic in xdis's tables" if tier == "quick" else "all 65536", TIME_LIMIT_S, MEM_LIMIT >> 20, slowest),
